@@ -185,6 +185,10 @@ func aliasChar(t *rapid.T, s string) string {
 	i := rapid.IntRange(0, len(s)-1).Draw(t, "alias_i")
 	c := s[i]
 	var rep string
+	folds := map[byte]string{'k': "\u212a", 'K': "\u212a", 's': "\u017f", 'S': "\u017f", 'i': "\u0130", 'I': "\u0131"}
+	if f, ok := folds[c]; ok && rapid.Bool().Draw(t, "alias_fold") {
+		return s[:i] + f + s[i+1:]
+	}
 	switch rapid.IntRange(0, 5).Draw(t, "alias_kind") {
 	case 0:
 		rep = string(rune(0x100 + int(c)))
